@@ -130,7 +130,29 @@ func kdeRecord(out io.Writer, args []string) error {
 		var okX, okW func() bool
 		var wsum float64
 		kde := &stats.KDE{}
+		// every third history hands the sample over in ascending order with the Sorted flag set, as Sample.Sort leaves it (the
+		// weights travel with their values): what the estimate is does not depend on how the sample was prepared
+		sortedFlag := rng.Intn(3) == 0
 		setSample := func() { // (re)build the float slices handed to the library from iv / wi
+			if sortedFlag {
+				ord := make([]int, len(iv))
+				for i := range ord {
+					ord[i] = i
+				}
+				sort.SliceStable(ord, func(a, b int) bool { return iv[ord[a]] < iv[ord[b]] })
+				niv := make([]int64, len(iv))
+				var nwi []int
+				if wi != nil {
+					nwi = make([]int, len(iv))
+				}
+				for k, i := range ord {
+					niv[k] = iv[i]
+					if wi != nil {
+						nwi[k] = wi[i]
+					}
+				}
+				iv, wi = niv, nwi
+			}
 			minx, maxx = iv[0], iv[0]
 			for _, v := range iv {
 				if v < minx {
@@ -165,7 +187,7 @@ func kdeRecord(out io.Writer, args []string) error {
 					wsum += float64(wi[i])
 				}
 			}
-			kde.Sample = stats.Sample{Xs: gxs, Weights: gws}
+			kde.Sample = stats.Sample{Xs: gxs, Weights: gws, Sorted: sortedFlag}
 		}
 		setSample()
 		// configuration mirrored by the spec
